@@ -32,6 +32,46 @@ binding:   (a) CASE lines of the bounded configuration (every string up to lengt
            comparisons with a fresh object of its own text) after every later step, accepted or
            rejected.  MC_VersionString_pair*.cfg explores every (obj, kept) pair; in the LTS replay
            assignment edges are preceded by the model's Copy self-loop; traces carry kobs.
+API surface (notes/API_SURFACE.md) -- every public way of doing what the statement mentions:
+  entry point / variant                                   exercised by
+  ------------------------------------------------------  -----------------------------------------
+  Version(s) NativeVersion(s) BaseVersion(s), positional  CASE replay (all three for the canonical
+                                                          form), LTS construct edges, traces
+  ... the same with the keyword  cls(version=s)           CASE replay / LTS / traces, rotating (kw)
+  debian.changelog.Version (re-export of the class)       CASE / LTS / traces, rotating class name
+  AptPkgVersion                                           out of domain here: apt_pkg is absent in
+                                                          this image, the constructor raises
+                                                          NotImplementedError (Version = NativeVersion)
+  cls(version_object), same class and each other class    Copy edges / copy events ("ctor", "ctor:X")
+  copy.copy, copy.deepcopy, pickle round trip             Copy edges / copy events
+  reading full_version epoch upstream_version             projection after every call (observe)
+    debian_revision debian_version(alias), str()
+  repr()                                                  compared with repr of a fresh object of the
+                                                          same class after every call; called before
+                                                          every assignment (warm)
+  assigning full_version epoch upstream_version           LTS edges / trace events; debian_revision
+    debian_revision debian_version(alias)                 and its alias alternate (variant bit 1)
+  hash, == != < > with version OBJECTS                    KeyFresh comparison with a fresh object
+  == < > and version_compare with plain STRINGS           the same comparison with the fresh object's
+                                                          text / probe texts, rotating (variant bit 4)
+  version_compare(a, b)                                   KeyFresh comparison (objects and strings)
+  deprecated aliases (function_deprecated_by)             none concerns versions: printOut, listReleases,
+                                                          internRelease, readLinesSHA1, patchesFromEdScript,
+                                                          patchLines, replaceFile, downloadGunzipLines,
+                                                          downloadFile, updateFile, mergeAsSets only
+  indirect users that carry a version through str():      used as further ways to Copy a valid object
+    Changelog.new_block(version=v) / set_version(v) /     ("changelog", "block", "dsc", "changes"):
+    .version / get_version(), ChangeBlock(version=v)      the result must be the same version, in an
+    .version, Dsc / Changes .set_version(v) /             independent object; an exception there is
+    .get_version() (deb822._VersionAccessorMixin)         noted, not judged (C04/C15/C09 own them);
+                                                          INVALID text through them is out of domain
+                                                          (ChangeBlock stores any str, Deb822 values
+                                                          have their own validation, C08)
+  non-str arguments (None, int epoch, bytes)              out of domain: the statement speaks of
+                                                          strings; str(value) coercion is not judged
+Variants are mixed within one history: e.g. construct through NativeVersion(version=s), copy through
+Version(v) or a Changelog, continue on the copy, assign through the debian_version alias, compare
+with strings.  The variant choices are part of every recorded violation (replayable).
 negative controls run in every check (spec level): DollarAnchor, UnicodeDigits, NoRollback, StaleKey,
 CopySharesParts must make TLC report AcceptExact / ImplRefines / KeyFresh / CopyIndependent violated; corrupted literal traces must be
 rejected.
@@ -55,6 +95,7 @@ BADKEY = [[-2], [-2], [-2]]         # the object does not behave like a fresh on
 NOOBJ = {"full": ABSENT, "epoch": ABSENT, "upstream": ABSENT, "revision": ABSENT, "key": NOKEY}
 PROBES = ("1.0-1", "1:0")           # fixed versions the object is ordered against (same signs as a fresh object)
 CLASSES = ("Version", "NativeVersion", "BaseVersion")
+ALLC = CLASSES + ("changelog.Version",)       # the class as re-exported by debian.changelog
 ATTR = {"full": "full_version", "epoch": "epoch", "upstream": "upstream_version", "revision": "debian_revision"}
 
 # ------------------------------------------------------------------ concretization
@@ -204,6 +245,9 @@ class SymMap:
 # ------------------------------------------------------------------ driving the real classes
 
 def get_class(name):
+    if name == "changelog.Version":
+        import debian.changelog
+        return debian.changelog.Version
     from debian import debian_support
     return getattr(debian_support, name)
 
@@ -230,6 +274,8 @@ def warm(v):
         return
     try:
         hash(v)
+        repr(v)
+        str(v)
         if comparable(type(v)):
             p = probes(type(v))[0]
             v == p
@@ -246,18 +292,18 @@ def signs(a, b):
 _fresh_signs = {}
 
 
-def fresh_signs(cls, fresh):
-    """how a fresh object of this text orders against the probes (memoised: fresh objects are never
-    assigned to)"""
-    k = (cls, fresh.full_version)
+def fresh_signs(cls, fresh, strs=False):
+    """how a fresh object of this text orders against the probes (objects, or plain strings when
+    strs) (memoised: fresh objects are never assigned to)"""
+    k = (cls, fresh.full_version, strs)
     if k not in _fresh_signs:
         if len(_fresh_signs) > 50000:
             _fresh_signs.clear()
-        _fresh_signs[k] = [signs(fresh, p) for p in probes(cls)]
+        _fresh_signs[k] = [signs(fresh, p) for p in (PROBES if strs else probes(cls))]
     return _fresh_signs[k]
 
 
-def coherence(v):
+def coherence(v, strs=False):
     """KeyFresh, observed behaviourally: v is indistinguishable from a fresh object built from
     v.full_version.  Returns (key projection, note): the fresh object's parsed components when v
     behaves like it, BADKEY and what differed otherwise"""
@@ -270,26 +316,29 @@ def coherence(v):
                 return BADKEY, "%s is %r, a fresh %s(%r) has %r" % (a, getattr(v, a), cls.__name__, fresh.full_version, getattr(fresh, a))
         if str(v) != str(fresh):
             return BADKEY, "str(v) = %r, a fresh object gives %r" % (str(v), str(fresh))
+        if repr(v) != repr(fresh):
+            return BADKEY, "repr(v) = %s, a fresh object gives %s" % (repr(v), repr(fresh))
         if hash(v) != hash(fresh):
             return BADKEY, "hash(v) differs from the hash of a fresh %s(%r)" % (cls.__name__, fresh.full_version)
         if comparable(cls):
-            sg = signs(v, fresh)
-            if sg != (False, True, False) or v != fresh or fresh < v:
+            other = fresh.full_version if strs else fresh       # comparison with a plain string is public API too
+            sg = signs(v, other)
+            if sg != (False, True, False) or v != other or fresh < v:
                 return BADKEY, "v compared with a fresh %s(%r): (v<f, v==f, v>f) = %r" % (
                     cls.__name__, fresh.full_version, sg)
             from debian.debian_support import version_compare
-            if version_compare(v, fresh) != 0:
-                return BADKEY, "version_compare(v, fresh %r) = %r" % (fresh.full_version, version_compare(v, fresh))
-            for p, want in zip(probes(cls), fresh_signs(cls, fresh)):
+            if version_compare(v, other) != 0 or (strs and version_compare(other, v) != 0):
+                return BADKEY, "version_compare(v, %s %r) = %r" % ("the text" if strs else "fresh", fresh.full_version, version_compare(v, other))
+            for p, want in zip(PROBES if strs else probes(cls), fresh_signs(cls, fresh, strs)):
                 if signs(v, p) != want:
                     return BADKEY, "(v<p, v==p, v>p) against p = %s is %r, for a fresh %s(%r) it is %r" % (
-                        p.full_version, signs(v, p), cls.__name__, fresh.full_version, want)
+                        p if strs else p.full_version, signs(v, p), cls.__name__, fresh.full_version, want)
         return key, None
     except Exception as e:      # observation
         return BADKEY, "comparing with a fresh object raised %s: %s" % (type(e).__name__, e)
 
 
-def observe(v, deep=True):
+def observe(v, deep=True, strs=False):
     """projection: (four attributes as code points + behavioural key, message about str()/alias
     inconsistency, note about KeyFresh); the note is not a verdict by itself: the specification
     decides through obs["key"] (unspecified states are adopted whatever they are)"""
@@ -303,7 +352,7 @@ def observe(v, deep=True):
     except Exception as e:      # observation, not a harness failure
         return {"full": [-2], "epoch": [-2], "upstream": [-2], "revision": [-2], "key": BADKEY}, \
             "reading the attributes raised %s: %s" % (type(e).__name__, e), None
-    o["key"], note = coherence(v) if deep else (None, None)     # None: not observed at this step
+    o["key"], note = coherence(v, strs) if deep else (None, None)     # None: not observed at this step
     if s != o["full"]:
         return o, "str(v) = %s but full_version = %s" % (show(s), show(o["full"])), note
     if alias != o["revision"]:
@@ -320,7 +369,8 @@ def outcome(fn):
         return None, "EXC:" + type(e).__name__
 
 
-COPY_HOW = ("ctor", "ctor", "ctor:Version", "ctor:NativeVersion", "ctor:BaseVersion", "copy", "deepcopy", "pickle")
+COPY_HOW = ("ctor", "ctor:Version", "ctor:NativeVersion", "ctor:BaseVersion", "copy", "deepcopy", "pickle",
+            "ctor", "changelog", "block", "dsc", "changes")
 copy_unsupported = {}
 
 
@@ -340,16 +390,34 @@ def make_copy(cls, v, how):
             return pickle.loads(pickle.dumps(v)), "ok"
         except Exception as e:
             copy_unsupported[how] = type(e).__name__
+    if how in ("changelog", "block", "dsc", "changes"):
+        # indirect users: the version travels through str() inside a changelog / a .dsc / a .changes
+        try:
+            if how == "changelog":
+                from debian.changelog import Changelog
+                c = Changelog()
+                c.new_block(version=v)
+                c.set_version(v)
+                return (c.version if len(v.full_version) % 2 else c.get_version()), "ok"
+            if how == "block":
+                from debian.changelog import ChangeBlock
+                return ChangeBlock(version=v).version, "ok"
+            from debian import deb822
+            d = (deb822.Dsc if how == "dsc" else deb822.Changes)()
+            d.set_version(v)
+            return d.get_version(), "ok"
+        except Exception as e:
+            copy_unsupported[how] = type(e).__name__
     if how.startswith("ctor:"):
         cls = get_class(how[5:])
     return outcome(lambda: cls(v))
 
 
-def do_op(cls, v, op, val, alias=False, how="ctor"):
+def do_op(cls, v, op, val, alias=False, how="ctor", kw=False):
     """one public call on object v (None = no object yet); returns (object, result string);
     for "copy" the object returned is the NEW one (v itself when copying failed)"""
     if op == "construct":
-        nv, res = outcome(lambda: cls(txt(val)))
+        nv, res = outcome((lambda: cls(version=txt(val))) if kw else (lambda: cls(txt(val))))
         return (nv if res == "ok" else None), res
     if op == "copy":
         nv, res = make_copy(cls, v, how)
@@ -396,10 +464,10 @@ def expected_parts(case, segs):
     return {"full": cut(0, len(segs)), "epoch": ep, "upstream": up, "revision": rev, "key": [ep, up, rev]}
 
 
-def check_case(clsname, t, valid, unspec, exp, stats=None, deep=True):
+def check_case(clsname, t, valid, unspec, exp, stats=None, deep=True, kw=False):
     """construct clsname from code points t; TLC said valid/unspec and (if valid) the object exp"""
     cls = get_class(clsname)
-    v, res = do_op(cls, None, "construct", t)
+    v, res = do_op(cls, None, "construct", t, kw=kw)
     if unspec:
         if stats is not None:
             stats[res] = stats.get(res, 0) + 1
@@ -471,8 +539,9 @@ def run_path(clsname, start, path, sm, aliases, stats=None, deep=True, copies=((
     for i, e in enumerate(path):
         op, val = e["op"], sm.cp(e["args"][0])
         last = i == len(path) - 1
+        var = int(aliases[i % len(aliases)])     # variant code: 1 debian_version alias, 2 keyword constructor, 4 compare with strings
         how, cont = copies[ncopies % len(copies)] if op == "copy" else ("ctor", "new")
-        where = "step %d %s %s%s" % (i + 1, clsname, "%s = " % ATTR[op] if op in ATTR else "%s[%s, continue on %s] " % (op, how, cont) if op == "copy" else op + " ", show(val))
+        where = "step %d %s %s%s" % (i + 1, clsname, "%s = " % ("debian_version" if op == "revision" and var & 1 else ATTR[op]) if op in ATTR else "%s[%s, continue on %s] " % (op, how, cont) if op == "copy" else op + (" version=" if var & 2 else " "), show(val))
         if e["res"] == "unspec":
             # executed on a scratch object, any outcome accepted
             scratch = None
@@ -480,14 +549,14 @@ def run_path(clsname, start, path, sm, aliases, stats=None, deep=True, copies=((
                 scratch, _ = do_op(cls, None, "construct", sm.cp(e["from"]["full"]))
                 if scratch is None:
                     continue
-            _, res = do_op(cls, scratch, op, val, aliases[i % len(aliases)])
+            _, res = do_op(cls, scratch, op, val, bool(var & 1), kw=bool(var & 2))
             if stats is not None:
                 stats[res] = stats.get(res, 0) + 1
             continue
         warm(v)                  # hash / == / < before the call: cached keys now exist
         warm(kept)
         src = v
-        v, res = do_op(cls, v, op, val, aliases[i % len(aliases)], how)
+        v, res = do_op(cls, v, op, val, bool(var & 1), how, kw=bool(var & 2))
         if res != e["res"]:
             return "%s: outcome %s, the specification says %s (object before: %s)" % (where, res, e["res"], fmt(before))
         exp = sm.obj(e["to"])
@@ -499,7 +568,7 @@ def run_path(clsname, start, path, sm, aliases, stats=None, deep=True, copies=((
             kept, kept_exp = (src if cont == "new" else new), exp
             if type(v) is not cls:
                 cls = type(v)
-        o, msg, note = observe(v, deep or last)
+        o, msg, note = observe(v, deep or last, strs=bool(var & 4))
         if msg:
             return "%s: %s" % (where, msg)
         if o["key"] is None:
@@ -651,14 +720,14 @@ def record_trace(rng, clsname, s=None, nops=None):
     read back after every later event (kobs)"""
     cls = get_class(clsname)
     s = gen_string(rng) if s is None else s
-    calls = [{"op": "construct", "v": s, "alias": False}]
+    calls = [{"op": "construct", "v": s, "alias": False, "kw": rng.random() < 0.3, "strs": rng.random() < 0.5}]
     n = rng.randint(0, 8) if nops is None else nops
     for _ in range(n):
         op = rng.choice(["epoch", "upstream", "revision", "epoch", "upstream", "revision", "full", "copy", "copy"])
         val = ABSENT if op == "copy" else gen_value(rng, op)
         if op == "full" and val == ABSENT:
             val = []
-        c = {"op": op, "v": val, "alias": rng.random() < 0.5}
+        c = {"op": op, "v": val, "alias": rng.random() < 0.5, "strs": rng.random() < 0.5}
         if op == "copy":
             c["how"], c["cont"] = rng.choice(COPY_HOW), rng.choice(["new", "src"])
         calls.append(c)
@@ -675,14 +744,14 @@ def execute_calls(clsname, calls):
         warm(v)
         warm(kept)
         src = v
-        v, res = do_op(cls, v, c["op"], c["v"], c.get("alias", False), c.get("how", "ctor"))
+        v, res = do_op(cls, v, c["op"], c["v"], c.get("alias", False), c.get("how", "ctor"), kw=c.get("kw", False))
         if c["op"] == "copy" and res == "ok":
             new = v
             if c.get("cont", "new") == "src":
                 v = src
             kept = src if c.get("cont", "new") == "new" else new
-        o, msg, note = observe(v)
-        ko, kmsg, knote = observe(kept)
+        o, msg, note = observe(v, strs=c.get("strs", False))
+        ko, kmsg, knote = observe(kept, strs=not c.get("strs", False))
         if kmsg and not msg:
             msg = "the other object of the copy: " + kmsg
         ev = dict(c, res=res, obs=o, kobs=ko, msg=msg, note=note or (knote and "other object of the copy: " + knote))
@@ -694,7 +763,7 @@ def execute_calls(clsname, calls):
 
 def re_record(t):
     """re-execute the calls of a recorded trace on the current tree"""
-    return execute_calls(t["cls"], [{k: e[k] for k in ("op", "v", "alias", "how", "cont") if k in e} for e in t["events"]])
+    return execute_calls(t["cls"], [{k: e[k] for k in ("op", "v", "alias", "how", "cont", "kw", "strs") if k in e} for e in t["events"]])
 
 
 def _o(full, ep, up, rev, key=None):
@@ -924,11 +993,12 @@ def _run(ctx, quick, rng, workers, bg, f_pair):
             if k > nconc:
                 n_sized += 1
             exp = expected_parts(c, segs) if (c["valid"] and not c["unspec"]) else None
-            names = CLASSES if k == 0 else (CLASSES[(idx + k) % 3],)
+            names = CLASSES if k == 0 else (ALLC[(idx + k) % 4],)
+            kw = (idx + k) % 3 == 1
             bad = None
             for name in names:
                 msg = check_case(name, t, c["valid"], c["unspec"], exp, unspec_stats if c["unspec"] else None,
-                                 deep=(k == 0 or k > nconc))
+                                 deep=(k == 0 or k > nconc), kw=kw)
                 n_cases += 1
                 if msg:
                     bad = (name, msg)
@@ -937,7 +1007,7 @@ def _run(ctx, quick, rng, workers, bg, f_pair):
             if bad:
                 n_bad += 1
                 ctx.violation({"kind": "case", "cls": bad[0], "s": t, "model_s": s, "valid": c["valid"],
-                               "unspec": c["unspec"], "expected": exp}, bad[1])
+                               "unspec": c["unspec"], "expected": exp, "kw": kw}, bad[1])
                 break
             if k > nconc:
                 if len(cross_sized) < (150 if quick else 1500) and (c["valid"] or idx % 7 == 0) and rng.random() < (0.1 if quick else 0.3):
@@ -984,8 +1054,8 @@ def _run(ctx, quick, rng, workers, bg, f_pair):
         for k in range(nconc_e + extra):
             sm = SymMap() if k == 0 else SymMap(rng, symbols, sized=(k >= nconc_e))
             n_sized_paths += k >= nconc_e
-            clsname = CLASSES[(idx + k) % 3]
-            aliases = [bool((idx + k) & 1), bool((idx + k) & 2)]
+            clsname = ALLC[(idx + k) % 4]
+            aliases = [(idx + k) % 8, (idx // 8 + k) % 8]      # variant codes, see run_path
             if (idx + k) % 2 == 0 and e["_f"] in paths:
                 start, path = NOOBJ, paths[e["_f"]] + [e]
             else:
@@ -1024,8 +1094,8 @@ def _run(ctx, quick, rng, workers, bg, f_pair):
         n_pair_paths += any(x["op"] == "copy" for x in path)
         sm = SymMap() if w % 4 == 0 else SymMap(rng, symbols, sized=(w % 4 == 1))
         n_sized_paths += w % 4 == 1
-        clsname = CLASSES[w % 3]
-        aliases = [rng.random() < 0.5 for _ in range(5)]
+        clsname = ALLC[w % 4]
+        aliases = [rng.randrange(8) for _ in range(5)]
         msg = run_path(clsname, g.states[start_key], path, sm, aliases, assign_stats, copies=copies)
         ctx.case_seen(("walk", w), True)
         n_replayed += 1
@@ -1045,9 +1115,9 @@ def _run(ctx, quick, rng, workers, bg, f_pair):
 
     # 5. (c) code -> spec: recorded constructions and assignment sequences validated by TLC
     ntr = 1200 if quick else 12000
-    traces = [record_trace(rng, CLASSES[i % 3]) for i in range(ntr)]
+    traces = [record_trace(rng, ALLC[i % 4]) for i in range(ntr)]
     for i, t in enumerate(cross):
-        traces.append(record_trace(rng, CLASSES[i % 3], s=t, nops=rng.choice([0, 0, 3])))
+        traces.append(record_trace(rng, ALLC[i % 4], s=t, nops=rng.choice([0, 0, 3])))
     rejected, info = validate(ctx, traces)
     # str()/alias inconsistencies seen while recording are verdict observables too
     n_bad = 0
@@ -1101,7 +1171,7 @@ def _run(ctx, quick, rng, workers, bg, f_pair):
 
 def replay(ctx, case):
     if case["kind"] == "case":
-        return check_case(case["cls"], case["s"], case["valid"], case["unspec"], case["expected"])
+        return check_case(case["cls"], case["s"], case["valid"], case["unspec"], case["expected"], kw=case.get("kw", False))
     if case["kind"] == "path":
         return run_path(case["cls"], case["start"], case["path"], SymMap.from_json(case["sym"]), case["aliases"],
                         copies=case.get("copies") or (("ctor", "new"),))
